@@ -275,9 +275,9 @@ def as_iter(I, v):
         if v.kind == 'set':
             return VecIntoIter([k for k, _ in v.items])
         return VecIntoIter([St('()', [k, x]) for k, x in v.items])
-    if isinstance(v, St) and v.ty in ('Range', 'RangeInclusive'):
-        return RangeIt(v.f[0], v.f[1], v.ty == 'RangeInclusive')
-    if isinstance(v, En) and v.ty == 'Option':
+    if isinstance(v, St) and v.short in ('Range', 'RangeInclusive'):
+        return RangeIt(v.f[0], v.f[1], v.short == 'RangeInclusive')
+    if isinstance(v, En) and v.short == 'Option':
         return VecIntoIter(list(v.f))
     raise Unsupported('not iterable: %r' % (type(v).__name__,))
 
@@ -313,7 +313,7 @@ def range_incl_new(I, c):
 def range_contains(I, c):
     r = deref(c.args[0])
     x = deref(c.args[1])
-    if r.ty == 'RangeInclusive':
+    if r.short == 'RangeInclusive':
         return simp(smt.And(r.f[0] <= x, x <= r.f[1]))
     return simp(smt.And(r.f[0] <= x, x < r.f[1]))
 
@@ -831,7 +831,7 @@ def index_model(I, c):
     v = deref(c.args[0])
     i = deref(c.args[1])
     if isinstance(v, Vc):
-        if isinstance(i, St) and i.ty in ('Range', 'RangeInclusive', 'RangeFrom', 'RangeTo', 'RangeFull'):
+        if isinstance(i, St) and i.short in ('Range', 'RangeInclusive', 'RangeFrom', 'RangeTo', 'RangeFull'):
             raise Unsupported('range indexing')
         if not is_conc(i):
             if not v.e:
